@@ -66,11 +66,11 @@ impl<T> HxMapUnit for Option<T> { type O = Option<()>; open spec fn hx_mu(self, 
 // rule G6: the value comes out of a lock guard that stays alive (as a temporary of an `if let`/`match` scrutinee, or as a local) across
 // a later await: whoever else needs that lock waits for as long as this future is kept un-polled. The shape itself is the defect.
 pub fn hx_guard_held_across_await<T>(t: T) -> (r: T)
-    requires false,                                                                            // @ob lock.guard-not-held-across-an-await C02,C17,C18,C08
+    requires false,                                                                            // @ob lock.guard-not-held-across-an-await C02,C17,C18,C08,C06
     ensures r == t
 { t }
 pub fn hx_guard_shape_marker()
-    requires false,                                                                            // @ob lock.guard-not-held-across-an-await C02,C17,C18,C08
+    requires false,                                                                            // @ob lock.guard-not-held-across-an-await C02,C17,C18,C08,C06
 { }
 // Option / Result ::unwrap_or_default (rule C1u): the contained value if there is one; otherwise `Default::default()`, about which nothing is assumed
 pub trait HxUnwrapOrDefault: Sized { type V; spec fn hx_has(&self) -> bool; spec fn hx_val(&self) -> Self::V;
